@@ -37,26 +37,35 @@ func accessorResult(fn *ssa.Function) ssa.Value {
 	if fn == nil || len(fn.Blocks) != 1 || fn.Pkg == nil || !strings.HasPrefix(fn.Pkg.Pkg.Path(), ModulePrefix) {
 		return nil
 	}
-	if fn.Signature.Results().Len() != 1 || len(fn.Blocks[0].Instrs) > 16 {
+	if fn.Signature.Results().Len() != 1 || len(fn.Blocks[0].Instrs) > 32 {
+		return nil
+	}
+	// exported functions are API: their names are stable anchors, only private helpers
+	// come and go with refactorings
+	if o := fn.Object(); o == nil || o.Exported() {
 		return nil
 	}
 	var res ssa.Value
 	for _, in := range fn.Blocks[0].Instrs {
 		switch x := in.(type) {
-		case *ssa.FieldAddr, *ssa.Field, *ssa.BinOp, *ssa.Convert, *ssa.ChangeType, *ssa.IndexAddr, *ssa.Index, *ssa.DebugRef:
+		case *ssa.FieldAddr, *ssa.Field, *ssa.BinOp, *ssa.Convert, *ssa.ChangeType, *ssa.IndexAddr, *ssa.Index, *ssa.DebugRef,
+			*ssa.MakeInterface, *ssa.Slice, *ssa.Alloc, *ssa.MakeClosure, *ssa.Extract, *ssa.TypeAssert, *ssa.ChangeInterface:
+		case *ssa.Store:
+			// building a composite literal in a local is part of the expression
+			if ResolveAlloc(x.Addr) == nil {
+				if fa, ok := x.Addr.(*ssa.FieldAddr); !ok || ResolveAlloc(fa.X) == nil {
+					if ia, ok := x.Addr.(*ssa.IndexAddr); !ok || ResolveAlloc(ia.X) == nil {
+						return nil
+					}
+				}
+			}
 		case *ssa.UnOp:
 			if x.Op == token.ARROW {
 				return nil
 			}
 		case *ssa.Lookup:
-			if x.CommaOk {
-				return nil
-			}
 		case *ssa.Call:
-			b, ok := x.Call.Value.(*ssa.Builtin)
-			if !ok || (b.Name() != "len" && b.Name() != "cap" && b.Name() != "min" && b.Name() != "max") {
-				return nil
-			}
+			// `return other(args…)`: the wrapper's result is the inner call, written in the caller's terms
 		case *ssa.Return:
 			if len(x.Results) != 1 {
 				return nil
@@ -265,6 +274,10 @@ func (st *provState) compute(v ssa.Value) string {
 	case *ssa.Builtin:
 		return "builtin:" + x.Name()
 	case *ssa.Alloc:
+		// &T{…}: the literal's fields name the value, wherever it is built
+		if x.Comment == "complit" && len(StoresTo(x)) == 0 && len(StructLitFields(x)) > 0 {
+			return "&" + st.loadAlloc(x)
+		}
 		return "alloc:" + x.Name() + "@" + x.Parent().Name() + ":" + x.Comment
 	case *ssa.FieldAddr:
 		if a, ok := x.X.(*ssa.Alloc); ok {
@@ -474,7 +487,19 @@ func (st *provState) call(c *ssa.CallCommon, v ssa.Value) string {
 			for i, p := range fn.Params {
 				sub.bind[p] = st.path(c.Args[i])
 			}
-			return sub.path(res)
+			// the body's value names the result only if everything the helper was given shows
+			// in it (a helper that feeds an argument into a stateful object — a hasher, a
+			// builder — and returns that object's product does not)
+			exp := sub.path(res)
+			complete := true
+			for _, p := range fn.Params {
+				if refs := p.Referrers(); refs != nil && len(*refs) > 0 && !strings.Contains(exp, sub.bind[p]) {
+					complete = false
+				}
+			}
+			if complete {
+				return exp
+			}
 		}
 	}
 	var as []string
